@@ -265,6 +265,42 @@ def run_op(case):
             return violated(sig, "coil_batch_size=%d changes the result: forward rel %.3g, "
                             "adjoint rel %.3g" % (b, e1, e2), wit, mech="batch-value")
     obs["batch_dev"] = worst
+    if traj == "cart" and nd == 2 and case["oseed"] % 5 == 2 and w is None:
+        # maps that broadcast over an extra image axis (frames sharing one set of maps):
+        # mps of shape (nc, 1, ny, nx) with ishape = (nt, ny, nx) given explicitly
+        nt = 3
+        mps2 = mps[:, None]
+        ish2 = [nt] + list(img)
+        x2 = crandn(rng, ish2, cdt)
+        try:
+            A2 = mr.linop.Sense(mps2, ishape=ish2)
+            y2 = A2(x2)
+            ref2 = ODFT.dft(mps2 * x2, axes=[-3, -2, -1], center=True, norm="ortho")
+            e = nrm(y2 - ref2) / max(nrm(ref2), 1e-300)
+            checks += 1
+            if list(A2.oshape) != [nc] + ish2 or not e <= t_exact:
+                return violated(sig, "Sense with broadcasting maps %s and ishape %s differs from "
+                                "F(mps x): rel %.3g, oshape %s" % (list(mps2.shape), ish2, e,
+                                                                   A2.oshape), wit,
+                                mech="encoding-broadcast-maps", obs=obs)
+            for b in range(1, nc):
+                Ab = mr.linop.Sense(mps2, ishape=ish2, coil_batch_size=b)
+                yb = Ab(x2)
+                xb = Ab.H(y2)
+                checks += 1
+                if yb.shape != y2.shape or nrm(yb - y2) > t_batch * max(nrm(y2), 1e-300) or \
+                        nrm(xb - A2.H(y2)) > t_batch * max(nrm(x2), 1e-300) * nc * 10:
+                    return violated(sig, "broadcasting maps with ishape given: "
+                                    "coil_batch_size=%d changes the result" % b, wit,
+                                    mech="batch-value")
+        except Exception as e:
+            inn = e
+            while inn.__cause__ is not None:
+                inn = inn.__cause__
+            return violated(sig, "Sense with broadcasting maps %s, ishape %s (coil batching) "
+                            "raised %s: %s" % (list(mps2.shape), ish2, type(inn).__name__,
+                                               str(inn)[:150]), wit, mech="batch-raised")
+        sig += "|broadcast-maps"
     return held(sig, obs, checks)
 
 
